@@ -7,7 +7,7 @@ Model: `Snel.Model.Parser*` (tokenizer, `parse_command`, the PEG grammars of QUE
 ordered-choice parsers with eager actions, the dispatcher's variant table). Tied to the Rust code by
 the generated tables of `Snel.Gen.C17` and by the `parse`, `tokens`, `f64`, `prec`, `dispatch`
 correspondence streams. `S : Sites` says which grammar actions `unwrap()` a failed numeric
-conversion — `Sites.current` is generated from the source; `U : Uni` are std's Unicode tables.
+conversion — `Sites.current` is generated from the source (all off since the fix commits); `U : Uni` are std's Unicode tables.
 -/
 namespace Snel.Props.C17
 open Snel.Parser
@@ -127,62 +127,65 @@ theorem C17_keywords_ci :
 example : parseCommand Uni.ascii "query ev where a Or b aNd nOT c limit 7".toList =
     parseCommand Uni.ascii "QUERY ev WHERE a OR b AND NOT c LIMIT 7".toList := by decide +kernel
 
-/-- **Parsing is total** once no grammar action unwraps a failed conversion: for every input, every
-Unicode table, `parse_command` answers `ok`, `error` (or `unmodelled` for DEFINE / PLOT) — never `panic`.
-This is the theorem about the code after the proposed fix (`Sites` all `false`). -/
-theorem C17_parse_total_fixed (S : Sites) (hS : S.NoPanic) (U : Uni) (s : Str) :
+/-- **Parsing is total**: for every input and every Unicode table, `parse_command` of the present code
+answers `ok`, `error` (or `unmodelled` for DEFINE / PLOT) — never `panic`. The unwrap sites
+`Sites.current` are generated from the source (fallible `{? … }` actions since 3a22cf3 / 871e1a6);
+`by decide` checks that none of them unwraps. -/
+theorem C17_parse_total (U : Uni) (s : Str) : parseCommand U s ≠ .panic :=
+  parseCommandWith_np Sites.current (by decide) U s
+
+/-- The general form: whatever the sites, a panic can only come from a site that unwraps. -/
+theorem C17_parse_total_of_sites (S : Sites) (hS : S.NoPanic) (U : Uni) (s : Str) :
     parseCommandWith S U s ≠ .panic :=
   parseCommandWith_np S hS U s
 
-/-- PARTIAL: the same for the present code under the hypothesis that the generated unwrap sites are
-all off. On the present tree the hypothesis is false (`C17_parse_total_fails`); after the fix the
-extractor regenerates `Sites.current` and the hypothesis is discharged by `decide`. -/
-theorem C17_parse_total_partial (hfix : Sites.current.NoPanic) (U : Uni) (s : Str) :
-    parseCommand U s ≠ .panic :=
-  parseCommandWith_np Sites.current hfix U s
-
-example : Sites.fixed.NoPanic := by decide
-
-/-- The full statement is false of the code as it is: each of the four unwrap sites is reachable.
-Replayed on the real code by the `parse` stream (finding classes limit-offset-unwrap,
-int-literal-unwrap, float-literal-unwrap). -/
-theorem C17_parse_total_fails :
-    parseCommand Uni.ascii "QUERY ev LIMIT 99999999999".toList = .panic ∧
-    parseCommand Uni.ascii "QUERY ev LIMIT -1".toList = .panic ∧
-    parseCommand Uni.ascii "QUERY ev OFFSET 4294967296".toList = .panic ∧
-    parseCommand Uni.ascii "QUERY ev WHERE x = 99999999999999999999".toList = .panic ∧
-    parseCommand Uni.ascii ("QUERY ev WHERE x = 1".toList ++ List.replicate 309 '0' ++ ".0".toList) = .panic ∧
-    ¬ Sites.current.NoPanic := by
-  refine ⟨by decide +kernel, by decide +kernel, by decide +kernel, by decide +kernel, by decide +kernel, by decide⟩
-
-/-- the boundary values do not panic -/
+/-- the inputs that panicked before the fix are parse errors now; the boundary values parse -/
+example : parseCommand Uni.ascii "QUERY ev LIMIT 99999999999".toList = .error := by decide +kernel
+example : parseCommand Uni.ascii "QUERY ev LIMIT -1".toList = .error := by decide +kernel
+example : parseCommand Uni.ascii "QUERY ev OFFSET 4294967296".toList = .error := by decide +kernel
+example : parseCommand Uni.ascii "QUERY ev WHERE x = 99999999999999999999".toList = .error := by decide +kernel
+example : parseCommand Uni.ascii ("QUERY ev WHERE x = 1".toList ++ List.replicate 309 '0' ++ ".0".toList) = .error := by
+  decide +kernel
 def qc : Query := { eventType := "ev".toList, limit := some 4294967295 }
 def qd : Query := { eventType := "ev".toList, whereClause := some (.cmp ['x'] .eq (.int (-9223372036854775808))) }
 example : parseCommand Uni.ascii "QUERY ev LIMIT 4294967295".toList = .ok (.single (.query qc)) := by decide +kernel
 example : parseCommand Uni.ascii "QUERY ev WHERE x = -9223372036854775808".toList = .ok (.single (.query qd)) := by decide +kernel
 
-/-- **Dispatch**: the variants with an arm in `dispatch_command` are exactly the non-`Batch` ones the
-parser can produce. -/
-theorem C17_dispatch_total_partial (c : Command) (h : ∀ cs, c ≠ .batch cs) : dispatch c = .handled := by
+/-- Historical (findings C17-limit-offset-unwrap, C17-int-literal-unwrap, C17-float-literal-unwrap, status
+fixed): with the sites of the code before the fix — `Sites.unwrapping`, no longer `Sites.current` — each
+of the four `unwrap()`s was reachable. Kept because it shows that the generated site flags decide the
+theorem above: a regression to `unwrap()` flips a flag and `C17_parse_total` stops compiling. -/
+theorem C17_unwrapping_sites_panic :
+    parseCommandWith Sites.unwrapping Uni.ascii "QUERY ev LIMIT 99999999999".toList = .panic ∧
+    parseCommandWith Sites.unwrapping Uni.ascii "QUERY ev LIMIT -1".toList = .panic ∧
+    parseCommandWith Sites.unwrapping Uni.ascii "QUERY ev OFFSET 4294967296".toList = .panic ∧
+    parseCommandWith Sites.unwrapping Uni.ascii "QUERY ev WHERE x = 99999999999999999999".toList = .panic ∧
+    parseCommandWith Sites.unwrapping Uni.ascii ("QUERY ev WHERE x = 1".toList ++ List.replicate 309 '0' ++ ".0".toList) = .panic ∧
+    Sites.current ≠ Sites.unwrapping := by
+  refine ⟨by decide +kernel, by decide +kernel, by decide +kernel, by decide +kernel, by decide +kernel, by decide⟩
+
+/-- **Dispatch is total**: every command `parse_command` can return — including `Batch` — has an arm in
+`dispatch_command` (arms generated from the source; `Batch(_)` answers 400 since fbe6de4, and the
+`_ => unreachable!()` arm is gone). -/
+theorem C17_dispatch_total (c : Command) : dispatch c = .handled := by
   cases c with
-  | batch cs => exact absurd rfl (h cs)
+  | batch cs => simp only [dispatch, Command.variant]; decide
   | single c1 => cases c1 <;> simp only [dispatch, Command.variant, Cmd1.variant] <;> decide
 
-/-- The full statement (every parsed command is dispatched) is false: `BATCH [ PING ]` parses to a
-`Batch`, for which `dispatch_command` has no arm and falls into `unreachable!()`. Replayed on the real
-code by the `dispatch` stream (finding class batch-unreachable). -/
-theorem C17_dispatch_total_fails :
-    ∃ s c, parseCommand Uni.ascii s = .ok c ∧ dispatch c = .unreachable :=
-  ⟨"BATCH [ PING ]".toList, .batch [.ping], by decide +kernel, by decide⟩
+/-- … stated on the parser's output. -/
+theorem C17_dispatch_total_parsed (U : Uni) (s : Str) (c : Command) (_h : parseCommand U s = .ok c) :
+    dispatch c ≠ .unreachable := by
+  rw [C17_dispatch_total c]; decide
 
-theorem C17_dispatch_unreachable_iff (c : Command) : dispatch c = .unreachable ↔ ∃ cs, c = .batch cs := by
+/-- every variant of the Rust `Command` enum (generated list), also the ones the text parser of the
+modelled fragment never produces (`Define`, `Compare`), has an arm; there is no fallback arm. -/
+theorem C17_dispatch_all_variants :
+    (∀ v ∈ Gen.C17.commandVariants, dispatchVariant v = .handled) ∧ Gen.C17.dispatchFallbackUnreachable = false := by
+  decide
+
+example : parseCommand Uni.ascii "BATCH [ PING ]".toList = .ok (.batch [.ping]) ∧ dispatch (.batch [.ping]) = .handled := by
   constructor
-  · intro h
-    cases c with
-    | batch cs => exact ⟨cs, rfl⟩
-    | single c1 =>
-      have := C17_dispatch_total_partial (.single c1) (by intro cs; simp)
-      rw [this] at h; exact absurd h (by decide)
-  · rintro ⟨cs, rfl⟩; simp only [dispatch, Command.variant]; decide
+  · decide +kernel
+  · decide
 
 end Snel.Props.C17
